@@ -529,6 +529,8 @@ struct Options
     std::string failDir{"."};
     std::vector<std::string> files;
     uint64_t maxEnum{0};  // 0 = unlimited
+    uint64_t enumShard{0};   // enumeration sharding: this process handles cases with index % enumShards == enumShard
+    uint64_t enumShards{1};
 };
 
 inline Options parseOptions(int argc, char** argv)
@@ -554,6 +556,13 @@ inline Options parseOptions(int argc, char** argv)
             o.failDir = val();
         else if (a == "--max-enum")
             o.maxEnum = std::stoull(val());
+        else if (a == "--enum-shard")
+        {
+            std::string v = val();
+            size_t slash = v.find('/');
+            o.enumShard = std::stoull(v.substr(0, slash));
+            o.enumShards = std::max<uint64_t>(1, std::stoull(v.substr(slash + 1)));
+        }
         else
             o.files.push_back(a);
     }
@@ -673,7 +682,10 @@ int pbtMain(int argc, char** argv, const Property<Case>& prop)
         }
         bool failed = false;
         std::string failPath, why;
+        uint64_t enumIndex = 0;
         prop.enumerate(opt.tier, [&](const Case& c) -> bool {
+            if (enumIndex++ % opt.enumShards != opt.enumShard)
+                return true;
             Info info;
             currentCaseText() = serialize(c);
             Verdict v = execute(prop, c, info, opt.fork);
